@@ -1400,6 +1400,14 @@ let f64_finite = function
 | S754_finite (_, _, _) -> true
 | _ -> false
 
+(** val f64_sign : f64 -> bool **)
+
+let f64_sign = function
+| S754_zero s -> s
+| S754_infinity s -> s
+| S754_nan -> false
+| S754_finite (s, _, _) -> s
+
 (** val f64_integral : f64 -> bool **)
 
 let f64_integral = function
@@ -14899,6 +14907,408 @@ let excl_chain c =
 let excl_C02 p =
   excl_chain p.p_root
 
+(** val kw_beq : kw -> kw -> bool **)
+
+let kw_beq x y =
+  match x with
+  | KTo -> (match y with
+            | KTo -> true
+            | _ -> false)
+  | KNull -> (match y with
+              | KNull -> true
+              | _ -> false)
+  | KTrue -> (match y with
+              | KTrue -> true
+              | _ -> false)
+  | KFalse -> (match y with
+               | KFalse -> true
+               | _ -> false)
+  | KIs -> (match y with
+            | KIs -> true
+            | _ -> false)
+  | KUnknown -> (match y with
+                 | KUnknown -> true
+                 | _ -> false)
+  | KExists -> (match y with
+                | KExists -> true
+                | _ -> false)
+  | KStrict -> (match y with
+                | KStrict -> true
+                | _ -> false)
+  | KLax -> (match y with
+             | KLax -> true
+             | _ -> false)
+  | KLast -> (match y with
+              | KLast -> true
+              | _ -> false)
+  | KStarts -> (match y with
+                | KStarts -> true
+                | _ -> false)
+  | KWith -> (match y with
+              | KWith -> true
+              | _ -> false)
+  | KLikeRegex -> (match y with
+                   | KLikeRegex -> true
+                   | _ -> false)
+  | KFlag -> (match y with
+              | KFlag -> true
+              | _ -> false)
+  | KAbs -> (match y with
+             | KAbs -> true
+             | _ -> false)
+  | KSize -> (match y with
+              | KSize -> true
+              | _ -> false)
+  | KType -> (match y with
+              | KType -> true
+              | _ -> false)
+  | KFloor -> (match y with
+               | KFloor -> true
+               | _ -> false)
+  | KDouble -> (match y with
+                | KDouble -> true
+                | _ -> false)
+  | KCeiling -> (match y with
+                 | KCeiling -> true
+                 | _ -> false)
+  | KKeyvalue -> (match y with
+                  | KKeyvalue -> true
+                  | _ -> false)
+  | KDatetime -> (match y with
+                  | KDatetime -> true
+                  | _ -> false)
+  | KBigint -> (match y with
+                | KBigint -> true
+                | _ -> false)
+  | KBoolean -> (match y with
+                 | KBoolean -> true
+                 | _ -> false)
+  | KDate -> (match y with
+              | KDate -> true
+              | _ -> false)
+  | KDecimal -> (match y with
+                 | KDecimal -> true
+                 | _ -> false)
+  | KInteger -> (match y with
+                 | KInteger -> true
+                 | _ -> false)
+  | KNumber -> (match y with
+                | KNumber -> true
+                | _ -> false)
+  | KStringfunc -> (match y with
+                    | KStringfunc -> true
+                    | _ -> false)
+  | KTime -> (match y with
+              | KTime -> true
+              | _ -> false)
+  | KTimeTz -> (match y with
+                | KTimeTz -> true
+                | _ -> false)
+  | KTimestamp -> (match y with
+                   | KTimestamp -> true
+                   | _ -> false)
+  | KTimestampTz -> (match y with
+                     | KTimestampTz -> true
+                     | _ -> false)
+
+(** val ctok : z -> token **)
+
+let ctok c =
+  { tk = (TChar c); ttext = (string_of_runes (c :: [])) }
+
+(** val kwt : kw -> char list -> token **)
+
+let kwt k w =
+  { tk = (TKw k); ttext = w }
+
+(** val binop_toks : binop -> token list **)
+
+let binop_toks = function
+| BAnd -> { tk = TAnd; ttext = ('&'::('&'::[])) } :: []
+| BOr -> { tk = TOr; ttext = ('|'::('|'::[])) } :: []
+| BEq -> { tk = TEqual; ttext = ('='::('='::[])) } :: []
+| BNe -> { tk = TNotEqual; ttext = ('!'::('='::[])) } :: []
+| BLt -> { tk = TLess; ttext = ('<'::[]) } :: []
+| BGt -> { tk = TGreater; ttext = ('>'::[]) } :: []
+| BLe -> { tk = TLessEq; ttext = ('<'::('='::[])) } :: []
+| BGe -> { tk = TGreaterEq; ttext = ('>'::('='::[])) } :: []
+| BStartsWith ->
+  (kwt KStarts ('s'::('t'::('a'::('r'::('t'::('s'::[]))))))) :: ((kwt KWith
+                                                                   ('w'::('i'::('t'::('h'::[]))))) :: [])
+| BAdd -> (ctok (Zpos (XI (XI (XO (XI (XO XH))))))) :: []
+| BSub -> (ctok (Zpos (XI (XO (XI (XI (XO XH))))))) :: []
+| BMul -> (ctok (Zpos (XO (XI (XO (XI (XO XH))))))) :: []
+| BDiv -> (ctok (Zpos (XI (XI (XI (XI (XO XH))))))) :: []
+| BMod -> (ctok (Zpos (XI (XO (XI (XO (XO XH))))))) :: []
+
+(** val const_toks : constk -> bool -> token list **)
+
+let const_toks k inKey =
+  match k with
+  | CRoot -> (ctok (Zpos (XO (XO (XI (XO (XO XH))))))) :: []
+  | CCurrent -> (ctok (Zpos (XO (XO (XO (XO (XO (XO XH)))))))) :: []
+  | CLast -> (kwt KLast ('l'::('a'::('s'::('t'::[]))))) :: []
+  | CAnyArray ->
+    (ctok (Zpos (XI (XI (XO (XI (XI (XO XH)))))))) :: ((ctok (Zpos (XO (XI
+                                                         (XO (XI (XO XH))))))) :: (
+      (ctok (Zpos (XI (XO (XI (XI (XI (XO XH)))))))) :: []))
+  | CAnyKey ->
+    app
+      (if inKey then (ctok (Zpos (XO (XI (XI (XI (XO XH))))))) :: [] else [])
+      ((ctok (Zpos (XO (XI (XO (XI (XO XH))))))) :: [])
+  | CTrue -> (kwt KTrue ('t'::('r'::('u'::('e'::[]))))) :: []
+  | CFalse -> (kwt KFalse ('f'::('a'::('l'::('s'::('e'::[])))))) :: []
+  | CNull -> (kwt KNull ('n'::('u'::('l'::('l'::[]))))) :: []
+
+(** val meth_kw : meth -> kw * char list **)
+
+let meth_kw = function
+| MAbs -> (KAbs, ('a'::('b'::('s'::[]))))
+| MSize -> (KSize, ('s'::('i'::('z'::('e'::[])))))
+| MType -> (KType, ('t'::('y'::('p'::('e'::[])))))
+| MFloor -> (KFloor, ('f'::('l'::('o'::('o'::('r'::[]))))))
+| MCeiling -> (KCeiling, ('c'::('e'::('i'::('l'::('i'::('n'::('g'::[]))))))))
+| MDouble -> (KDouble, ('d'::('o'::('u'::('b'::('l'::('e'::[])))))))
+| MKeyValue ->
+  (KKeyvalue, ('k'::('e'::('y'::('v'::('a'::('l'::('u'::('e'::[])))))))))
+| MBigInt -> (KBigint, ('b'::('i'::('g'::('i'::('n'::('t'::[])))))))
+| MBoolean -> (KBoolean, ('b'::('o'::('o'::('l'::('e'::('a'::('n'::[]))))))))
+| MInteger -> (KInteger, ('i'::('n'::('t'::('e'::('g'::('e'::('r'::[]))))))))
+| MNumber -> (KNumber, ('n'::('u'::('m'::('b'::('e'::('r'::[])))))))
+| MString -> (KStringfunc, ('s'::('t'::('r'::('i'::('n'::('g'::[])))))))
+
+(** val dtop_kw : dtop -> kw * char list **)
+
+let dtop_kw = function
+| DDateTime ->
+  (KDatetime, ('d'::('a'::('t'::('e'::('t'::('i'::('m'::('e'::[])))))))))
+| DDate -> (KDate, ('d'::('a'::('t'::('e'::[])))))
+| DTime -> (KTime, ('t'::('i'::('m'::('e'::[])))))
+| DTimeTZ -> (KTimeTz, ('t'::('i'::('m'::('e'::('_'::('t'::('z'::[]))))))))
+| DTimestamp ->
+  (KTimestamp,
+    ('t'::('i'::('m'::('e'::('s'::('t'::('a'::('m'::('p'::[]))))))))))
+| DTimestampTZ ->
+  (KTimestampTz,
+    ('t'::('i'::('m'::('e'::('s'::('t'::('a'::('m'::('p'::('_'::('t'::('z'::[])))))))))))))
+
+(** val tparen : bool -> token list -> token list **)
+
+let tparen b l =
+  if b
+  then (ctok (Zpos (XO (XO (XO (XI (XO XH))))))) :: (app l
+                                                      ((ctok (Zpos (XI (XO
+                                                         (XO (XI (XO XH))))))) :: []))
+  else l
+
+(** val regex_flag_text : z -> char list **)
+
+let regex_flag_text f =
+  append (if Z.ltb Z0 (Z.coq_land f reICase) then 'i'::[] else [])
+    (append (if Z.ltb Z0 (Z.coq_land f reDotAll) then 's'::[] else [])
+      (append (if Z.ltb Z0 (Z.coq_land f reMLine) then 'm'::[] else [])
+        (append (if Z.ltb Z0 (Z.coq_land f reWSpace) then 'x'::[] else [])
+          (if Z.ltb Z0 (Z.coq_land f reQuote) then 'q'::[] else []))))
+
+(** val int_toks : goLib -> z -> token list **)
+
+let int_toks l z0 =
+  if Z.ltb z0 Z0
+  then (ctok (Zpos (XI (XO (XI (XI (XO XH))))))) :: ({ tk = TInt; ttext =
+         (l.format_int (Z.opp z0)) } :: [])
+  else { tk = TInt; ttext = (l.format_int z0) } :: []
+
+(** val num_toks : goLib -> f64 -> token list **)
+
+let num_toks l f =
+  if f64_sign f
+  then (ctok (Zpos (XI (XO (XI (XI (XO XH))))))) :: ({ tk = TNumeric; ttext =
+         (l.format_float_json (l.f64_neg f)) } :: [])
+  else { tk = TNumeric; ttext = (l.format_float_json f) } :: []
+
+(** val level_toks : goLib -> z -> token list **)
+
+let level_toks l x =
+  if Z.eqb x max_uint32
+  then (kwt KLast ('l'::('a'::('s'::('t'::[]))))) :: []
+  else { tk = TInt; ttext = (l.format_int x) } :: []
+
+(** val any_toks : goLib -> z -> z -> token list **)
+
+let any_toks l first last =
+  if (&&) (Z.eqb first Z0) (Z.eqb last max_uint32)
+  then { tk = TAny; ttext = ('*'::('*'::[])) } :: []
+  else if Z.eqb first last
+       then app ({ tk = TAny; ttext =
+              ('*'::('*'::[])) } :: ((ctok (Zpos (XI (XI (XO (XI (XI (XI
+                                       XH)))))))) :: []))
+              (app (level_toks l first)
+                ((ctok (Zpos (XI (XO (XI (XI (XI (XI XH)))))))) :: []))
+       else app ({ tk = TAny; ttext =
+              ('*'::('*'::[])) } :: ((ctok (Zpos (XI (XI (XO (XI (XI (XI
+                                       XH)))))))) :: []))
+              (app (level_toks l first)
+                (app ((kwt KTo ('t'::('o'::[]))) :: [])
+                  (app (level_toks l last)
+                    ((ctok (Zpos (XI (XO (XI (XI (XI (XI XH)))))))) :: []))))
+
+(** val tok_step : goLib -> step -> bool -> bool -> bool -> token list **)
+
+let rec tok_step l s has_next inKey withParens =
+  let tc =
+    let rec tc c inKey0 withParens0 =
+      match c with
+      | [] -> []
+      | x :: r ->
+        app
+          (tok_step l x (match r with
+                         | [] -> false
+                         | _ :: _ -> true) inKey0 withParens0)
+          (tc r true true)
+    in tc
+  in
+  (match s with
+   | SConst k -> const_toks k inKey
+   | SStr t -> { tk = TString; ttext = t } :: []
+   | SInteger z0 -> tparen has_next (int_toks l z0)
+   | SNumeric f -> tparen has_next (num_toks l f)
+   | SVar t -> { tk = TVariable; ttext = t } :: []
+   | SKey t ->
+     app
+       (if inKey then (ctok (Zpos (XO (XI (XI (XI (XO XH))))))) :: [] else [])
+       ({ tk = TString; ttext = t } :: [])
+   | SBin (op, l0, r) ->
+     tparen withParens
+       (app (tc l0 false (Nat.leb (chain_prio l0) (binop_prio op)))
+         (app (binop_toks op)
+           (tc r false (Nat.leb (chain_prio r) (binop_prio op)))))
+   | SUn (op, a) ->
+     (match op with
+      | UExists ->
+        app
+          ((kwt KExists ('e'::('x'::('i'::('s'::('t'::('s'::[]))))))) :: (
+          (ctok (Zpos (XO (XO (XO (XI (XO XH))))))) :: []))
+          (app (tc a false false)
+            ((ctok (Zpos (XI (XO (XO (XI (XO XH))))))) :: []))
+      | UNot ->
+        app ({ tk = TNot; ttext =
+          ('!'::[]) } :: ((ctok (Zpos (XO (XO (XO (XI (XO XH))))))) :: []))
+          (app (tc a false false)
+            ((ctok (Zpos (XI (XO (XO (XI (XO XH))))))) :: []))
+      | UIsUnknown ->
+        app ((ctok (Zpos (XO (XO (XO (XI (XO XH))))))) :: [])
+          (app (tc a false false)
+            ((ctok (Zpos (XI (XO (XO (XI (XO XH))))))) :: ((kwt KIs
+                                                             ('i'::('s'::[]))) :: (
+            (kwt KUnknown ('u'::('n'::('k'::('n'::('o'::('w'::('n'::[])))))))) :: []))))
+      | UPlus ->
+        tparen withParens
+          ((ctok (Zpos (XI (XI (XO (XI (XO XH))))))) :: (tc a false
+                                                          (Nat.leb
+                                                            (chain_prio a) (S
+                                                            (S (S (S (S
+                                                            O))))))))
+      | UMinus ->
+        tparen withParens
+          ((ctok (Zpos (XI (XO (XI (XI (XO XH))))))) :: (tc a false
+                                                          (Nat.leb
+                                                            (chain_prio a) (S
+                                                            (S (S (S (S
+                                                            O))))))))
+      | UFilter ->
+        app
+          ((ctok (Zpos (XI (XI (XI (XI (XI XH))))))) :: ((ctok (Zpos (XO (XO
+                                                           (XO (XI (XO
+                                                           XH))))))) :: []))
+          (app (tc a false false)
+            ((ctok (Zpos (XI (XO (XO (XI (XO XH))))))) :: [])))
+   | SRegex (a, pat, fl) ->
+     tparen withParens
+       (app (tc a false true)
+         (app
+           ((kwt KLikeRegex
+              ('l'::('i'::('k'::('e'::('_'::('r'::('e'::('g'::('e'::('x'::[]))))))))))) :: ({ tk =
+           TString; ttext = pat } :: []))
+           (if Z.eqb fl Z0
+            then []
+            else (kwt KFlag ('f'::('l'::('a'::('g'::[]))))) :: ({ tk =
+                   TString; ttext = (regex_flag_text fl) } :: []))))
+   | SMeth m ->
+     (ctok (Zpos (XO (XI (XI (XI (XO XH))))))) :: ((kwt (fst (meth_kw m))
+                                                     (snd (meth_kw m))) :: (
+       (ctok (Zpos (XO (XO (XO (XI (XO XH))))))) :: ((ctok (Zpos (XI (XO (XO
+                                                       (XI (XO XH))))))) :: [])))
+   | SDecimal (p, sc) ->
+     app
+       ((ctok (Zpos (XO (XI (XI (XI (XO XH))))))) :: ((kwt KDecimal
+                                                        ('d'::('e'::('c'::('i'::('m'::('a'::('l'::[])))))))) :: (
+       (ctok (Zpos (XO (XO (XO (XI (XO XH))))))) :: [])))
+       (app (match p with
+             | Some z0 -> int_toks l z0
+             | None -> [])
+         (app
+           (match sc with
+            | Some z0 ->
+              (ctok (Zpos (XO (XO (XI (XI (XO XH))))))) :: (int_toks l z0)
+            | None -> []) ((ctok (Zpos (XI (XO (XO (XI (XO XH))))))) :: [])))
+   | SDt (op, tmpl, prec) ->
+     app
+       ((ctok (Zpos (XO (XI (XI (XI (XO XH))))))) :: ((kwt (fst (dtop_kw op))
+                                                        (snd (dtop_kw op))) :: (
+       (ctok (Zpos (XO (XO (XO (XI (XO XH))))))) :: [])))
+       (app
+         (match tmpl with
+          | Some t -> { tk = TString; ttext = t } :: []
+          | None -> (match prec with
+                     | Some z0 -> int_toks l z0
+                     | None -> []))
+         ((ctok (Zpos (XI (XO (XO (XI (XO XH))))))) :: []))
+   | SAny (first, last) ->
+     app
+       (if inKey then (ctok (Zpos (XO (XI (XI (XI (XO XH))))))) :: [] else [])
+       (any_toks l first last)
+   | SIndex subs ->
+     app ((ctok (Zpos (XI (XI (XO (XI (XI (XO XH)))))))) :: [])
+       (app
+         (let rec ts l0 first =
+            match l0 with
+            | [] -> []
+            | p :: r ->
+              let (a, b) = p in
+              app
+                (if first
+                 then []
+                 else (ctok (Zpos (XO (XO (XI (XI (XO XH))))))) :: [])
+                (app (tc a false false)
+                  (app
+                    (match b with
+                     | Some c ->
+                       (kwt KTo ('t'::('o'::[]))) :: (tc c false false)
+                     | None -> []) (ts r false)))
+          in ts subs true)
+         ((ctok (Zpos (XI (XO (XI (XI (XI (XO XH)))))))) :: [])))
+
+(** val tok_chain : goLib -> chain -> bool -> bool -> token list **)
+
+let rec tok_chain l c inKey withParens =
+  match c with
+  | [] -> []
+  | x :: r ->
+    app
+      (tok_step l x (match r with
+                     | [] -> false
+                     | _ :: _ -> true) inKey withParens)
+      (tok_chain l r true true)
+
+(** val tok_path : goLib -> path -> token list **)
+
+let tok_path l p =
+  app
+    (if p.p_lax
+     then []
+     else (kwt KStrict ('s'::('t'::('r'::('i'::('c'::('t'::[]))))))) :: [])
+    (tok_chain l p.p_root false true)
+
 (** val mk_lib : (char list -> z -> bool) -> goLib **)
 
 let mk_lib rx =
@@ -15177,6 +15587,169 @@ let err_name = function
 | EFuel ->
   'P'::('A'::('R'::('S'::('E'::('_'::('O'::('U'::('T'::('_'::('O'::('F'::('_'::('F'::('U'::('E'::('L'::[]))))))))))))))))
 
+(** val lex_err_beq : lex_err -> lex_err -> bool **)
+
+let lex_err_beq x y =
+  match x with
+  | EUtf8 -> (match y with
+              | EUtf8 -> true
+              | _ -> false)
+  | ENul -> (match y with
+             | ENul -> true
+             | _ -> false)
+  | ENumUnderscoreStart ->
+    (match y with
+     | ENumUnderscoreStart -> true
+     | _ -> false)
+  | ENumJunk -> (match y with
+                 | ENumJunk -> true
+                 | _ -> false)
+  | ENumExpMantissa -> (match y with
+                        | ENumExpMantissa -> true
+                        | _ -> false)
+  | ENumExpDigits -> (match y with
+                      | ENumExpDigits -> true
+                      | _ -> false)
+  | ENumInvalidDigit -> (match y with
+                         | ENumInvalidDigit -> true
+                         | _ -> false)
+  | ENumSep -> (match y with
+                | ENumSep -> true
+                | _ -> false)
+  | EComment -> (match y with
+                 | EComment -> true
+                 | _ -> false)
+  | EUnterminated -> (match y with
+                      | EUnterminated -> true
+                      | _ -> false)
+  | EBackslashEnd -> (match y with
+                      | EBackslashEnd -> true
+                      | _ -> false)
+  | ESurrogate -> (match y with
+                   | ESurrogate -> true
+                   | _ -> false)
+  | EHex -> (match y with
+             | EHex -> true
+             | _ -> false)
+  | EUnicode -> (match y with
+                 | EUnicode -> true
+                 | _ -> false)
+  | EU0000 -> (match y with
+               | EU0000 -> true
+               | _ -> false)
+  | EInvalidChar -> (match y with
+                     | EInvalidChar -> true
+                     | _ -> false)
+  | EOutOfFuel -> (match y with
+                   | EOutOfFuel -> true
+                   | _ -> false)
+
+(** val internal_positive_beq : positive -> positive -> bool **)
+
+let rec internal_positive_beq x y =
+  match x with
+  | XI x0 -> (match y with
+              | XI x1 -> internal_positive_beq x0 x1
+              | _ -> false)
+  | XO x0 -> (match y with
+              | XO x1 -> internal_positive_beq x0 x1
+              | _ -> false)
+  | XH -> (match y with
+           | XH -> true
+           | _ -> false)
+
+(** val internal_Z_beq : z -> z -> bool **)
+
+let internal_Z_beq x y =
+  match x with
+  | Z0 -> (match y with
+           | Z0 -> true
+           | _ -> false)
+  | Zpos x0 ->
+    (match y with
+     | Zpos x1 -> internal_positive_beq x0 x1
+     | _ -> false)
+  | Zneg x0 ->
+    (match y with
+     | Zneg x1 -> internal_positive_beq x0 x1
+     | _ -> false)
+
+(** val tkind_beq : tkind -> tkind -> bool **)
+
+let tkind_beq x y =
+  match x with
+  | TChar c -> (match y with
+                | TChar c0 -> internal_Z_beq c c0
+                | _ -> false)
+  | TIdent -> (match y with
+               | TIdent -> true
+               | _ -> false)
+  | TString -> (match y with
+                | TString -> true
+                | _ -> false)
+  | TNumeric -> (match y with
+                 | TNumeric -> true
+                 | _ -> false)
+  | TInt -> (match y with
+             | TInt -> true
+             | _ -> false)
+  | TVariable -> (match y with
+                  | TVariable -> true
+                  | _ -> false)
+  | TOr -> (match y with
+            | TOr -> true
+            | _ -> false)
+  | TAnd -> (match y with
+             | TAnd -> true
+             | _ -> false)
+  | TNot -> (match y with
+             | TNot -> true
+             | _ -> false)
+  | TLess -> (match y with
+              | TLess -> true
+              | _ -> false)
+  | TLessEq -> (match y with
+                | TLessEq -> true
+                | _ -> false)
+  | TEqual -> (match y with
+               | TEqual -> true
+               | _ -> false)
+  | TNotEqual -> (match y with
+                  | TNotEqual -> true
+                  | _ -> false)
+  | TGreaterEq -> (match y with
+                   | TGreaterEq -> true
+                   | _ -> false)
+  | TGreater -> (match y with
+                 | TGreater -> true
+                 | _ -> false)
+  | TAny -> (match y with
+             | TAny -> true
+             | _ -> false)
+  | TKw k -> (match y with
+              | TKw k0 -> kw_beq k k0
+              | _ -> false)
+  | TErr e -> (match y with
+               | TErr e0 -> lex_err_beq e e0
+               | _ -> false)
+
+(** val tok_eqb : token -> token -> bool **)
+
+let tok_eqb a b =
+  (&&) (tkind_beq a.tk b.tk) (eqb0 a.ttext b.ttext)
+
+(** val toks_eqb : token list -> token list -> bool **)
+
+let rec toks_eqb a b =
+  match a with
+  | [] -> (match b with
+           | [] -> true
+           | _ :: _ -> false)
+  | x :: a' ->
+    (match b with
+     | [] -> false
+     | y :: b' -> (&&) (tok_eqb x y) (toks_eqb a' b'))
+
 (** val run_line : (char list -> z -> bool) -> char list -> char list **)
 
 let run_line rx src =
@@ -15191,12 +15764,15 @@ let run_line rx src =
        | POk p' -> eqb0 (dump_path p') (dump_path p)
        | PErr _ -> false
      in
+     let tokok = toks_eqb (lex l (print_path l p)) (tok_path l p) in
      append
        (if negb wf
         then 'O'::('K'::(' '::('N'::('O'::('T'::('W'::('F'::(' '::[]))))))))
         else if (&&) (negb (excl_C02 p)) (negb rtok)
              then 'O'::('K'::(' '::('C'::('0'::('2'::('F'::('A'::('I'::('L'::(' '::[]))))))))))
-             else 'O'::('K'::(' '::[])))
+             else if (&&) (negb (excl_C02 p)) (negb tokok)
+                  then 'O'::('K'::(' '::('T'::('O'::('K'::('F'::('A'::('I'::('L'::(' '::[]))))))))))
+                  else 'O'::('K'::(' '::[])))
        (append (dump_path p) (append (' '::[]) (hx (print_path l p))))
    | PErr e -> append ('E'::('R'::('R'::(' '::[])))) (err_name e))
 
